@@ -179,7 +179,9 @@ Proof.
     destruct (calm_step s e s1 Hwf HC Hnw Hstep) as (HC1 & Hh1 & Hlk).
     split; [exact HC1|]. split; [|split; [congruence|exact Hlw]].
     intros p. destruct (decide (e = VJoin p)) as [->|Hne]; [|apply Hlk; [apply Hl|exact Hne]].
-    apply step_join in Hstep as (_ & _ & _ & _ & _ & _ & Hlj). rewrite Hlj.
+    (* nobody has written yet: the host's queue is empty, the join has nothing to flush *)
+    rewrite (join_noflush s p (proj2 (calm_idle _ HC host))) in Hstep.
+    apply step_join0 in Hstep as (_ & _ & _ & _ & _ & _ & Hlj). rewrite Hlj.
     destruct (decide ((host, p) = (host, p))) as [_|Hn]; [|congruence].
     unfold snapshot. rewrite Hl, Hh. reflexivity.
 Qed.
